@@ -258,22 +258,17 @@ def _child(slot, tasks, results, stop, cur, started):
         results.put((cid, out))
 
 
-def _pool_map(chunks, case_timeout=120.0):
+def _pool_map(make_chunks, case_timeout=120.0):
     """apply _work to every chunk in forked workers.  GLPK calls abort() on some inputs and a history may not terminate:
     every worker publishes the index of the case it is running, so a worker that dies (or is killed after
     `case_timeout` seconds in one case) costs exactly that case - reported as a failure - and the rest of its chunk is
-    queued again."""
+    queued again.  The workers are forked before `make_chunks()` builds the cases, so they do not inherit them."""
     import queue
     ctx = multiprocessing.get_context("fork")
-    n = min(PROCESSES, max(1, len(chunks)))
+    n = PROCESSES
     tasks, results, stop = ctx.Queue(), ctx.Queue(), ctx.Event()
     cur = ctx.Array("i", [-1] * n, lock=False)
     started = ctx.Array("d", [0.0] * n, lock=False)
-    pending = {}
-    for cid, ch in enumerate(chunks):
-        pending[cid] = ch
-        tasks.put((cid, ch))
-    next_id = len(chunks)
     procs = {}
 
     def spawn(slot):
@@ -283,6 +278,12 @@ def _pool_map(chunks, case_timeout=120.0):
         procs[slot] = p
     for slot in range(n):
         spawn(slot)
+    chunks = make_chunks()
+    pending = {}
+    for cid, ch in enumerate(chunks):
+        pending[cid] = ch
+        tasks.put((cid, ch))
+    next_id = len(chunks)
     out, casualties = [], []
     try:
         while pending:
@@ -398,19 +399,21 @@ def _group(found):
 
 
 def _evaluate(cases, tier="quick"):
-    """cases: [(family, case)] -> (statistics, failures)"""
-    seen, uniq = set(), []
-    for fam, case in cases:
-        h = json.dumps(case, sort_keys=True)
-        if h not in seen:
-            seen.add(h)
-            uniq.append((fam, case))
-    indexed = [(i, fam, case) for i, (fam, case) in enumerate(uniq)]
-    # interleave so that every chunk has a similar mix (the memo of a worker still profits from shared cores)
-    nchunks = max(1, len(indexed) // 250)
-    chunks = [indexed[i::nchunks] for i in range(nchunks)]
-    chunks = [c for c in chunks if c]
-    results, casualties = _pool_map(chunks)
+    """cases: [(family, case)] or a callable that returns them -> (statistics, failures)"""
+    uniq = []
+
+    def make_chunks():
+        seen = set()
+        for fam, case in (cases() if callable(cases) else cases):
+            h = hashlib.sha1(json.dumps(case, sort_keys=True).encode()).digest()
+            if h not in seen:
+                seen.add(h)
+                uniq.append((fam, case))
+        indexed = [(i, fam, case) for i, (fam, case) in enumerate(uniq)]
+        # interleave so that every chunk has a similar mix (the memo of a worker still profits from shared cores)
+        nchunks = max(1, len(indexed) // 250)
+        return [c for c in (indexed[i::nchunks] for i in range(nchunks)) if c]
+    results, casualties = _pool_map(make_chunks)
     harness_errors = [r["harness_error"] for r in results if "harness_error" in r]
     results = [r for r in results if "harness_error" not in r]
     by_family = {}
@@ -450,7 +453,9 @@ def _run(tier, seed):
     import resource
     t0 = time.time()
     cpu0 = resource.getrusage(resource.RUSAGE_CHILDREN)
-    st, failures = _evaluate(_cases(tier, seed), tier)
+    for n in ("toy", "chain"):
+        _alphabet(RECIPES[n])
+    st, failures = _evaluate(lambda: _cases(tier, seed), tier)
     cpu1 = resource.getrusage(resource.RUSAGE_CHILDREN)
     return {
         "evaluations": st["evaluations"],
